@@ -7,7 +7,7 @@
     schedule (invariants [RvInv], [PqInv] of coq/W/Pipe.v): a blocked recv is never left sleeping, no reply is
     stranded, the reply wake-up reaches the pipe's own live handler.  See docs/layer_w.md for what is missing. *)
 From Coq Require Import ZArith List Bool.
-From Stk Require Import Lib.U Gen.SrcWaker W.Waker W.WakerCore W.WakerRefine W.WakerProofs W.WakerGhost W.Pipe.
+From Stk Require Import Lib.U Gen.SrcWaker W.Waker W.WakerCore W.WakerRefine W.WakerProofs W.WakerGhost W.Pipe W.Monitors W.MonC14.
 Import ListNotations.
 Local Open Scope Z_scope.
 
@@ -15,7 +15,24 @@ Local Open Scope Z_scope.
    forall scr sched, C14_ok (flatten (wtrace scr sched)) false = true
    (exactly-once in-order traffic both ways; fwd_term exactly once, after all messages, with the panic flag;
    results of recv/send/cancel after the drop).  Both queues are FIFO lists appended and taken under the mutex;
-   what is proved below is that neither side can be left waiting. *)
+   what is proved below is that neither side can be left waiting, and (C14_replies_partial) the half of the
+   monitor that concerns the replies and the termination notice. *)
+
+(** PROVED PART of the trace form.  [C14r_ok] (coq/W/MonC14.v) is [C14_ok] for runs that are not aborted, over the
+    step function [m14r_step]: every field of the monitor state is computed by the monitor's own [m14_step]; the flag
+    is raised only by the checks made at [EFwdRecv] and [ETerm] events (the checks made at command returns - order of
+    [recv] against the sends of the main thread, answers of [recv]/[send]/[cancel] after the drop - keep the old
+    flag; they are the part that is NOT proved).  On every run of the model - all scripts, threads, pipes, schedules:
+    what [fwd_recv] gets for pipe [p] is at every moment a prefix of the replies the worker of [p] queued with
+    [send], in order, nothing invented, nothing twice; nothing is forwarded for [p] after its [fwd_term];
+    [fwd_term] is called at most once per pipe, with [panicked] = the worker ran [panic]; and in a quiescent state
+    every worker [send] that returned has been forwarded and every worker that exited has had its [fwd_term].
+    Hypothesis [pnew_ok]: the [pnew] commands of the run name non-negative pipes (negative ids are "no pipe" in
+    the harness and the model). *)
+Theorem C14_replies_partial : forall scr sched,
+  pnew_ok (flatten (wtrace scr sched)) -> C14r_ok (flatten (wtrace scr sched)) = true.
+Proof. exact C14r_monitor. Qed.
+Print Assumptions C14_replies_partial.
 
 (** A blocked [recv] always wakes for a new message or for cancellation: a worker that waits on the condition
     variable of pipe [p] and has not been notified has nothing to receive and is not cancelled - unless a
